@@ -15,6 +15,7 @@ whose legs are structural; completeness of the search is NOT decided.
  R6 groups     : deduplicate_disjunctions removes a group only when another group has exactly the same request set.
  Rm memo          : every memoisation construct in the functions behind this property is keyed by everything it reads.
  Rp presence      : optional numeric fields are tested with `is None` / membership, never by truthiness (0 is a value).
+ R7 group constraints: the scan of a combination stops early only after a STRICT failure (shared with C11-R6).
 """
 import ast
 
@@ -381,6 +382,13 @@ def r6_groups(ctx):
 
 
 
+def r7_group_constraints(ctx):
+    """R7: a combination that violates a STRICT include of any request of the group is never returned: the scan of a combination
+    stops early only after a STRICT failure (shared with C11-R6)"""
+    from .c11 import r6_group_constraints
+    r6_group_constraints(ctx)
+
+
 from ..memo import rule_for as _memo_rule
 
 RULES_MEMO = ('Rm.memo', _memo_rule('C12', 'candidates computed for another request would be reused'))
@@ -391,4 +399,4 @@ from ..presence import rule_for as _presence_rule
 RULES_PRESENCE = ('Rp.presence', _presence_rule('C12', 'a legal zero would be read as missing'))
 
 RULES = [('R1.acceptance', r1_acceptance), ('R2.shrink-only', r2_shrink), ('R3.must-raise', r3_raise), ('R4.cutoff', r4_cutoff),
-         ('R5.helper', r5_helper), ('R6.groups', r6_groups), RULES_MEMO, RULES_PRESENCE]
+         ('R5.helper', r5_helper), ('R6.groups', r6_groups), RULES_MEMO, RULES_PRESENCE, ('R7.group-constraints', r7_group_constraints)]
